@@ -298,7 +298,7 @@ fn main() {
                 (
                     "full-alphabet".into(),
                     Box::new(props_session::c13(&known, true)),
-                    Tiered { quick: lim(3, 2, true, 40), thorough: lim(4, 3, true, 500) },
+                    Tiered { quick: lim(4, 2, true, 40), thorough: lim(4, 3, true, 500) },
                     "graph",
                 ),
                 (
@@ -310,7 +310,7 @@ fn main() {
                 (
                     "core-alphabet".into(),
                     Box::new(props_session::c13(&known, false)),
-                    Tiered { quick: lim(4, 2, true, 40), thorough: lim(6, 4, true, 500) },
+                    Tiered { quick: lim(5, 2, true, 40), thorough: lim(6, 4, true, 500) },
                     "graph",
                 ),
             ],
